@@ -901,8 +901,11 @@ func slotsBI() []slot {
 		}},
 		mk("slice", func(b *biSpec, v string) { b.slice = v }, []string{"0 10 10 10", "10 10 0 10", "10 0 10 10", "0 25%", "100%", "10 fill"},
 			map[string][]string{"0 10 10 10": {"bi-zero-slice"}, "10 10 0 10": {"bi-zero-slice"}, "10 0 10 10": {"bi-zero-slice"}, "0 25%": {"bi-zero-slice"}}),
-		mk("repeat", func(b *biSpec, v string) { b.repeat = v }, []string{"repeat", "round", "space", "round space"}, nil),
-		mk("width", func(b *biSpec, v string) { b.width = v }, []string{"0", "2", "5px 0"}, map[string][]string{"0": {"bi-zero-width"}, "5px 0": {"bi-zero-width"}}),
+		mk("repeat", func(b *biSpec, v string) { b.repeat = v }, []string{"repeat", "round", "space", "round space"},
+			map[string][]string{"space": {"bi-space"}, "round space": {"bi-space"}}),
+		// "2" and "5px 0" make the image regions wider than the 3px border: on a zero-sized box they overlap
+		mk("width", func(b *biSpec, v string) { b.width = v }, []string{"0", "2", "5px 0"},
+			map[string][]string{"0": {"bi-zero-width"}, "5px 0": {"bi-zero-width", "bi-wide-regions"}, "2": {"bi-wide-regions"}}),
 		mk("outset", func(b *biSpec, v string) { b.outset = v }, []string{"0", "2", "5px 0"}, nil),
 		mk("border-width", func(b *biSpec, v string) { b.bw = v }, []string{"3px 0", "0 3px"}, map[string][]string{"3px 0": {"bi-zero-border-side"}, "0 3px": {"bi-zero-border-side"}}),
 		mk("box", func(b *biSpec, v string) { b.box = v }, []string{"width:0;height:0", "width:20px;height:20px"}, map[string][]string{"width:0;height:0": {"zero-size", "tiny-box"}}),
